@@ -20,6 +20,8 @@ def run(chk):
     A = a64common.load(chk)
     a64vec.run(chk, A)
     a64vec.run_db_q(chk)
+    from lib import evexsiblings
+    evexsiblings.run(chk)
     a64vec.run_signature_rows(chk, A)
     a64vec.run_fp(chk, A)
     zmask_rule(chk)
